@@ -240,6 +240,140 @@ type gtPoly struct {
 	c     *pt // kernel point of the outer ring, when known (generated scenes)
 }
 
+// assertGeneral: the scene hypotheses of the property for outers of ANY shape whose bounding boxes
+// may overlap: rings simple; boundaries of different rings have no common point; no outer has a
+// vertex inside another outer (non-nested); every hole strictly inside its own outer; holes of
+// one polygon not inside one another; vertices distinct, in range, none at (0,0).
+func assertGeneral(sc []gtPoly) {
+	seen := map[pt]bool{}
+	var rings [][]pt
+	chk := func(r []pt) {
+		if !simpleRing(r) {
+			panic("generator: ring not simple")
+		}
+		for _, p := range r {
+			if seen[p] || (p.x == 0 && p.y == 0) || p.x < 0 || p.y < 0 || p.x >= coordLim || p.y >= coordLim {
+				panic("generator: bad vertex")
+			}
+			seen[p] = true
+		}
+		for _, o := range rings {
+			for i := range r {
+				for j := range o {
+					if segTouch(r[i], r[(i+1)%len(r)], o[j], o[(j+1)%len(o)]) {
+						panic("generator: rings touch")
+					}
+				}
+			}
+		}
+		rings = append(rings, r)
+	}
+	for i, p := range sc {
+		chk(p.outer)
+		for j, q := range sc {
+			if i != j && insideExact(q.outer, p.outer[0]) {
+				panic("generator: nested outers")
+			}
+		}
+		for a, h := range p.holes {
+			chk(h)
+			if !strictlyInside(h, p.outer) {
+				panic("generator: hole not strictly inside")
+			}
+			for b, g := range p.holes {
+				if a != b && insideExact(g, h[0]) {
+					panic("generator: nested holes")
+				}
+			}
+			for j, q := range sc {
+				if i != j {
+					for _, v := range h {
+						if insideExact(q.outer, v) {
+							panic("generator: hole inside another outer")
+						}
+					}
+				}
+			}
+		}
+	}
+}
+
+// genInterlocked: two concave, non-nested outers whose bounding boxes overlap - a C-shaped polygon
+// and an L-shaped polygon whose bar enters the mouth of the C and whose arm rises beside it - with
+// holes placed where they lie inside the OTHER outer's bounding box; random unit, jitter,
+// mirror / transpose, drawing directions, polygon order.
+func genInterlocked(rng *rand.Rand) []gtPoly {
+	for {
+		u := int64(8 + rng.Intn(30))
+		j := func() int64 { return int64(rng.Intn(int(u/4 + 1))) } // jitter < u/4
+		A := []pt{{0, 0}, {10*u + j(), 0}, {10 * u, 3*u - j()}, {3*u + j(), 3 * u}, {3 * u, 7 * u}, {10*u - j(), 7*u + j()},
+			{10 * u, 10 * u}, {0, 10*u - j()}}
+		B := []pt{{4*u + j(), 4*u + j()}, {14 * u, 4 * u}, {14*u - j(), 12 * u}, {12 * u, 12*u - j()}, {12*u + j(), 6 * u}, {4 * u, 6*u - j()}}
+		hole := func(c pt, r int64) []pt { return starRing(rng, c, r/2+1, r, 3+rng.Intn(3)) }
+		r := u/3 + 1
+		holesA := [][]pt{hole(pt{3 * u / 2, 5 * u}, r), hole(pt{7 * u, 17 * u / 2}, r), hole(pt{7 * u, 3 * u / 2}, r)}
+		holesB := [][]pt{hole(pt{7 * u, 5 * u}, r-1), hole(pt{13 * u, 9 * u}, r-1)}
+		keep := func(hs [][]pt) [][]pt {
+			var o [][]pt
+			for _, h := range hs {
+				if h != nil && rng.Intn(4) > 0 {
+					o = append(o, h)
+				}
+			}
+			return o
+		}
+		sc := []gtPoly{{outer: A, holes: keep(holesA)}, {outer: B, holes: keep(holesB)}}
+		// mirror / transpose / translate
+		mx, my, tr := rng.Intn(2) == 0, rng.Intn(2) == 0, rng.Intn(2) == 0
+		ox, oy := int64(5+rng.Intn(2000)), int64(5+rng.Intn(2000))
+		mv := func(l []pt) {
+			for i, p := range l {
+				x, y := p.x, p.y
+				if mx {
+					x = 14*u - x
+				}
+				if my {
+					y = 12*u - y
+				}
+				if tr {
+					x, y = y, x
+				}
+				l[i] = pt{x + ox, y + oy}
+			}
+		}
+		for i := range sc {
+			mv(sc[i].outer)
+			for _, h := range sc[i].holes {
+				mv(h)
+			}
+			if rng.Intn(2) == 0 {
+				sc[i].outer = reversed(sc[i].outer)
+			}
+			sc[i].outer = rotated(sc[i].outer, rng.Intn(len(sc[i].outer)))
+			for k := range sc[i].holes {
+				if rng.Intn(2) == 0 {
+					sc[i].holes[k] = reversed(sc[i].holes[k])
+				}
+			}
+		}
+		if rng.Intn(2) == 0 {
+			sc[0], sc[1] = sc[1], sc[0]
+		}
+		ok := true
+		func() {
+			defer func() {
+				if recover() != nil {
+					ok = false
+				}
+			}()
+			assertGeneral(sc)
+		}()
+		if ok && !bboxDisjoint(sc[0].outer, sc[1].outer) {
+			return sc
+		}
+	}
+}
+
 // ---- geometric containment, as in coq/theories/Geo/Jordan.v (kernel, clear_h, clear_v, reach)
 
 func side(a, b, p pt) int64 { return (b.x-a.x)*(p.y-a.y) - (b.y-a.y)*(p.x-a.x) }
@@ -2085,7 +2219,7 @@ func main() {
 	a := wire.ParseArgs()
 	rng := wire.Rng(a.Seed)
 	w := wire.NewWriter("C16", a.Seed, a.Tier)
-	w.Rule = "coordinate embedding: scene integer coordinates (x,y) are fed as lon = x*s+lon0, lat = y*s+lat0 for s in {1, 1e-7} and offsets {0, far from the origin}; observations are mapped back through the exact table of fed floats (vertex identities), scenes are used only when the generator's exact margins guarantee that float signs equal integer signs; families: big / tiny (holes of a few steps) / micro (outers of a few steps) / null_island (a vertex at (1,0), (0,1) or (1,1) steps). multi_relation: three relations in ONE Convert call sharing member ways (two neighbouring polygons sharing their spoke ways, which run in opposite directions in the two; a third relation using the ways of the first as inner ring), each with its own ground truth and orientations; history: annotate.Relations over two versions of a relation between which member ways were reversed (new way version), every version judged against the ways current at it; ids: node / way / relation ids also drawn from {negative, 0, around 2^40, near +-2^63} (opaque in the model). scenes: 1-4 integer star-shaped outers in disjoint grid cells, 0-2 star-shaped holes each in disjoint sub-cells, strict containment (even-odd rule, no touching, AND kernel point + axis-parallel reachability of every hole vertex as in Geo/Jordan.v) / simplicity / disjointness asserted exactly; every ring cut into 1..6 pieces (all counts cycle), random reversals, shuffled members, ways, nodes and ids; each scene = 6 Convert runs (node map / annotated way nodes / both; no, truthful, partial truthful orientations; IncludeInvalidPolygons) + 2 annotate.Relations runs. malformed: a scene with 1-3 defects (missing way/member/node, node at (0,0), duplicate member, role change, dangling way, degenerate way, touching rings, node member), judged model=implementation only. join: random segment soups over a 12x12 pool plus valid cuts; contains / addmp: random rings. distinct = distinct token streams; trivial = empty soups."
+	w.Rule = "coordinate embedding: scene integer coordinates (x,y) are fed as lon = x*s+lon0, lat = y*s+lat0 for s in {1, 1e-7} and offsets {0, far from the origin}; observations are mapped back through the exact table of fed floats (vertex identities), scenes are used only when the generator's exact margins guarantee that float signs equal integer signs; families: big / tiny (holes of a few steps) / micro (outers of a few steps) / null_island (a vertex at (1,0), (0,1) or (1,1) steps). multi_relation: three relations in ONE Convert call sharing member ways (two neighbouring polygons sharing their spoke ways, which run in opposite directions in the two; a third relation using the ways of the first as inner ring), each with its own ground truth and orientations; history: annotate.Relations over two versions of a relation between which member ways were reversed (new way version), every version judged against the ways current at it; ids: node / way / relation ids also drawn from {negative, 0, around 2^40, near +-2^63} (opaque in the model). interlocked: a C-shaped and an L-shaped outer, non-nested, with overlapping bounding boxes and holes lying inside the other outer's box (assertGeneral: exact no-touching, non-nesting, strict containment); scenes: 1-4 integer star-shaped outers in disjoint grid cells, 0-2 star-shaped holes each in disjoint sub-cells, strict containment (even-odd rule, no touching, AND kernel point + axis-parallel reachability of every hole vertex as in Geo/Jordan.v) / simplicity / disjointness asserted exactly; every ring cut into 1..6 pieces (all counts cycle), random reversals, shuffled members, ways, nodes and ids; each scene = 6 Convert runs (node map / annotated way nodes / both; no, truthful, partial truthful orientations; IncludeInvalidPolygons) + 2 annotate.Relations runs. malformed: a scene with 1-3 defects (missing way/member/node, node at (0,0), duplicate member, role change, dangling way, degenerate way, touching rings, node member), judged model=implementation only. join: random segment soups over a 12x12 pool plus valid cuts; contains / addmp: random rings. distinct = distinct token streams; trivial = empty soups."
 	nscene, nmal, njoin, ncont, naddmp := 260, 120, 500, 500, 150
 	if a.Tier == "thorough" {
 		nscene, nmal, njoin, ncont, naddmp = 5000, 2500, 12000, 12000, 3000
@@ -2204,6 +2338,24 @@ func main() {
 		n := sizes[i%len(sizes)]
 		w.Add(irregularCase(rng, genIrregular(rng, n)))
 		w.Count(fmt.Sprintf("irregular_outers:%d", n))
+	}
+	// 1a''. concave, interlocking outers with overlapping bounding boxes (any shape: outside the
+	// star-shaped class of Geo/Jordan.v, inside the even-odd class of theorems 7 and 8)
+	ninter := sc(40)
+	if a.Tier == "thorough" {
+		ninter = sc(1200)
+	}
+	for i := 0; i < ninter; i++ {
+		g := genInterlocked(rng)
+		e := []emb{embIdentity, {1e-7, 0, 0}}[i%2]
+		if !robust(g, e) {
+			e = embIdentity
+		}
+		in := cutScene(rng, g, func(ring, n int) int { return 1 + rng.Intn(4) })
+		in.e = e
+		c := specCase(rng, in)
+		c.Class = "interlocked"
+		w.Add(c)
 	}
 	// 1a'. rings around the 2048 point mark (comb-shaped: adversarial for sampling)
 	if a.Tier == "thorough" {
